@@ -243,13 +243,10 @@ impl TryFrom<&str> for FeelDateTime {
                         if let Ok(min) = min_match.as_str().parse::<u8>() {
                           if let Some(sec_match) = captures.name("seconds") {
                             if let Ok(sec) = sec_match.as_str().parse::<u8>() {
-                              let mut fractional = 0.0;
+                              let mut nanos = 0;
                               if let Some(frac_match) = captures.name("fractional") {
-                                if let Ok(frac) = frac_match.as_str().parse::<f64>() {
-                                  fractional = frac;
-                                }
+                                nanos = fraction_to_nanoseconds(frac_match.as_str());
                               }
-                              let nanos = (fractional * 1e9).trunc() as u64;
                               if is_valid_date(year, month, day) {
                                 let date = FeelDate::new(year, month, day);
                                 if let Some(zone) = FeelZone::from_captures(&captures) {
@@ -427,13 +424,10 @@ fn parse_time_literal(s: &str) -> Result<FeelTime> {
           if let Ok(min) = min_match.as_str().parse::<u8>() {
             if let Some(sec_match) = captures.name("seconds") {
               if let Ok(sec) = sec_match.as_str().parse::<u8>() {
-                let mut fractional = 0.0;
+                let mut nanos = 0;
                 if let Some(frac_match) = captures.name("fractional") {
-                  if let Ok(frac) = frac_match.as_str().parse::<f64>() {
-                    fractional = frac;
-                  }
+                  nanos = fraction_to_nanoseconds(frac_match.as_str());
                 }
-                let nanos = (fractional * 1e9).trunc() as u64;
                 if let Some(zone) = FeelZone::from_captures(&captures) {
                   if is_valid_time(hour, min, sec) {
                     return Ok(FeelTime(hour, min, sec, nanos, zone));
@@ -639,6 +633,17 @@ fn nanoseconds_to_string(nano: u64) -> String {
     }
   }
   nanos.chars().rev().collect()
+}
+
+/// Converts the fractional part of seconds (decimal point followed by digits)
+/// into the number of nanoseconds, the digits after the ninth one are dropped.
+fn fraction_to_nanoseconds(fraction: &str) -> u64 {
+  let mut digits = fraction.chars().skip(1);
+  let mut nanos = 0;
+  for _ in 0..9 {
+    nanos = nanos * 10 + digits.next().and_then(|ch| ch.to_digit(10)).unwrap_or(0) as u64;
+  }
+  nanos
 }
 
 fn is_valid_time(hour: u8, minute: u8, second: u8) -> bool {
